@@ -551,6 +551,14 @@ func checkInterest(val *Interest, context *InterestParsingContext) error {
 		if !bytes.Equal(name[len(name)-1].Val, digestBuf) {
 			return enc.ErrIncorrectDigest
 		}
+	} else {
+		// Without ApplicationParameters there is nothing the digest could be checked
+		// against: a ParametersSha256DigestComponent must not be present.
+		for _, c := range val.NameV {
+			if c.Typ == enc.TypeParametersSha256DigestComponent {
+				return enc.ErrIncorrectDigest
+			}
+		}
 	}
 	return nil
 }
